@@ -25,6 +25,12 @@ EXTENSION = [
     # alternative operator spellings as operands of the logical operators, unparenthesised
     "$[?@.b && @.a <> 1]", "$[?@.a <> 1 && @.b]", "$[?@.a <> @.b || @.s]", "$[?@.s and @.a <> 2 or @.b <> 2]", "$[?@.a in [1, 2] && @.b]", "$[?@.b && @.s contains 'b']", "$[?@.b || @.s =~ /a.*/]",
     "$[?!@.b && @.a <> 1]", "$[?@.a <> 1 == true]",
+    # the non-standard type functions, under both of their names, on singular, empty and multi-node arguments
+    "$[?typeof(@.a) == 'number']", "$[?type(@.s) == 'string']", "$[?typeof(@) == 'object']", "$[?typeof(@.nope) == 'undefined']", "$[?typeof(@.*) == 'array']",
+    "$..[?typeof(@) == 'array']", "$[?typeof(@.a) == typeof(@.b)]", "$[?typeof(@.b) == 'boolean' || typeof(@.a) == 'null']", "$[?isinstance(@.a, 'number')]",
+    "$[?is(@.s, 'string')]", "$[?is(@, 'object') && !is(@.a, 'missing')]", "$[?isinstance(@.nope, 'undefined')]", "$[?is(@.*, 'list')]", "$..[?is(@, 'int')]",
+    "$[?is(@.a, 'float') || is(@.a, 'bool')]", "$[?isinstance(@.a, typeof(@.a))]", "$[?is(@.a, 'nosuchtype')]", "$[?is(@.xs, 'sequence') && is(@.o, 'mapping')]",
+    "$[?is(@.a, _.tname)]", "$[?isinstance(@.n, 'null') || is(@.n, 'None')]",
     # a flag letter given twice
     "$[?@.s =~ /a.b/ss]", "$[?@.s =~ /A.*/ii]", "$[?@.s =~ /a.b/sis]", "$[?@.s =~ /^b/mm]", "$[?@.s =~ /A.B/isi]",
 ]
